@@ -327,7 +327,7 @@ PROPS = {
     "C11": {
         "harness": [{"cmd": "c11", "n": {"quick": 300, "thorough": 6000}, "extra": ["-per", "50"]}],
         "rule": "the goalign binary is built from /repo's working tree on every run; nucleotide alignments of 2-5 rows x "
-                "6-75 columns (gaps 2.5%) written as FASTA. 50%: one of 32 command templates (random, shuffle sites / "
+                "6-75 columns (gaps 2.5%) written as FASTA. 42%: one of 32 command templates (random, shuffle sites / "
                 "seqs / swap / recomb / rogue, sample sites / seqs, mutate snvs / gaps, build distboot / weightboot, "
                 "compute distance / entropy / pssm, stats, stats char / maxchar / gaps / per sequence, consensus, clean "
                 "sites, compress, sort, dedup, translate, reformat phylip / nexus / clustal) run twice with the same "
@@ -335,7 +335,7 @@ PROPS = {
                 "seqboot (1-3 replicates, fraction 1, 1/2, 3/4, with or without -S) twice, the files compared with each "
                 "other and with the model's prediction from the raw tape of the seed and the FASTA writer model; 20%: a "
                 "chain of 2-5 reformat commands through fasta / phylip / nexus / clustal back to the starting format, "
-                "final bytes against the starting file; 10%: build distboot against build seqboot + compute distance "
+                "final bytes against the starting file; 17%: reformat phylip (four layouts) and reformat fasta, stdout predicted by the writer models; 8%: build distboot against build seqboot + compute distance "
                 "on every replicate, 7 models; non-trivial = every case; distinct = distinct (command, seed, alignment)",
         "nontrivial": lambda m: True,
         "assumptions": [
